@@ -60,6 +60,27 @@ func checkDirected(b *harness.B, rng *rand.Rand) {
 			b.Violate("C11/roundtrip/V2Transaction/wide-shallow-policy", fmt.Sprintf("a transaction carrying a depth-2 policy with %d threshold nodes does not round-trip: %v", width+1, d2.Err()), map[string]any{"children": width})
 		}
 	}
+	// a threshold with more children than its one-byte count can say (the value exists in memory and has an address)
+	for _, kids := range []int{255, 256, 300} {
+		of := make([]types.SpendPolicy, kids)
+		for i := range of {
+			of[i] = types.PolicyAbove(uint64(i))
+		}
+		p := types.PolicyThreshold(1, of)
+		raw := encT(p)
+		var q types.SpendPolicy
+		d := types.NewBufDecoder(raw)
+		q.DecodeFrom(d)
+		b.Eval(1)
+		b.Count("directed_cases", 1)
+		same := d.Err() == nil && bytes.Equal(encT(q), raw) && q.Address() == p.Address()
+		if t, ok := q.Type.(types.PolicyTypeThreshold); same && ok && len(t.Of) != kids {
+			same = false
+		}
+		if !same {
+			b.Violate("C11/roundtrip/SpendPolicy/threshold-with-more-than-255-children", fmt.Sprintf("a threshold policy with %d children encodes to %d bytes whose count byte is %d; decoding gives a different policy (%v)", kids, len(raw), uint8(kids), d.Err()), map[string]any{"children": kids})
+		}
+	}
 	// nesting depth: the decoder's documented limit is recorded, not judged
 	for _, depth := range []int{30, 31, 32, 33} {
 		p := pk(1)
